@@ -130,3 +130,6 @@ def run(ctx):
     from . import C17
     C17.check_bypath(ctx, 'C14.BYPATH(=C17)')
     C17.check_fold(ctx, 'C14.FOLD(=C17)')
+    # bulk derivation must not bypass what ckd refuses or computes (hardened refusal, invalid-key refusals)
+    from .C01 import check_bulk
+    check_bulk(ctx, 'C14.BULK(=C01)', kinds=('pub',))
